@@ -66,10 +66,10 @@ func enumStrings(syms []string, maxLen int) []string {
 
 func c17Exhaustive(t *testing.T) {
 	patLen, nameLen := 5, 3
-	nameSyms := []string{"a", "b", "/", "]", "☺", "!"}
+	nameSyms := []string{"a", "b", "/", "]", "☺", "!", "\\", "*"}
 	if hx.Thorough() {
 		patLen, nameLen = 6, 4
-		nameSyms = []string{"a", "b", "/", "]", "☺", "-", "!"}
+		nameSyms = []string{"a", "b", "/", "]", "☺", "-", "!", "\\", "*"}
 	}
 	names := enumStrings(nameSyms, nameLen)
 	nameSet := intoto.NewSet(names...)
@@ -140,8 +140,8 @@ func c17Exhaustive(t *testing.T) {
 }
 
 func c17Gen(t *rapid.T) c17Case {
-	patAtoms := []string{"a", "b", "c", "/", "*", "*", "?", "[", "]", "^", "-", "\\", ".", "!", "[!a]", "[!-/]", "[\\]*]", "{a,b}", "~", "#", "é", "☺", "😀", "ab", "[a-c]", "[^a]", "[\\]]", "**", "?*", "\\*", "[☺-😀]", "[a-", "dir/", "\uFFFD", "[\uFFFD]", "[^\uFFFD]", "[a-\uFFFD]", "[\\\uFFFD]"}
-	nameAtoms := []string{"a", "b", "c", "/", "]", "-", "^", "*", "?", "[", "\\", ".", "!", "{", "}", ",", "~", "#", "é", "☺", "😀", "ab", "dir/", "abc", "\uFFFD"}
+	patAtoms := []string{"a", "b", "c", "/", "*", "*", "?", "[", "]", "^", "-", "\\", ".", "!", "[!a]", "[!-/]", "[\\]*]", "{a,b}", "~", "#", "é", "☺", "😀", "ab", "[a-c]", "[^a]", "[\\]]", "**", "?*", "\\*", "[☺-😀]", "[a-", "dir/", "\uFFFD", "[\uFFFD]", "[^\uFFFD]", "[a-\uFFFD]", "[\\\uFFFD]", "\x00", "[\x00-a]"}
+	nameAtoms := []string{"a", "b", "c", "/", "]", "-", "^", "*", "?", "[", "\\", ".", "!", "{", "}", ",", "~", "#", "é", "☺", "😀", "ab", "dir/", "abc", "\uFFFD", "\x00"}
 	var p, n strings.Builder
 	for _, a := range rapid.SliceOfN(rapid.SampledFrom(patAtoms), 0, 12).Draw(t, "pattern") {
 		p.WriteString(a)
@@ -171,6 +171,41 @@ func c17Gen(t *rapid.T) c17Case {
 	return c17Case{Pattern: p.String(), Name: n.String()}
 }
 
+// c17Twin: two (pattern, name) pairs that read the same once pattern and name are written one after the
+// other with a NUL between them - a\x00b | c and a | b\x00c. Each has its own answer.
+type c17Twin struct {
+	A string `json:"a"`
+	B string `json:"b"`
+	C string `json:"c"`
+	Sep string `json:"sep"`
+}
+
+func c17TwinRun(c c17Twin, r *hx.Rec) error {
+	sep := c.Sep
+	if sep == "" {
+		sep = "\x00"
+	}
+	pairs := []c17Case{{Pattern: c.A + sep + c.B, Name: c.C}, {Pattern: c.A, Name: c.B + sep + c.C}}
+	want0, _ := hx.RefGlob(pairs[0].Pattern, pairs[0].Name)
+	want1, _ := hx.RefGlob(pairs[1].Pattern, pairs[1].Name)
+	if want0 != want1 {
+		r.Nontrivial()
+		r.Label("twins-with-different-answers")
+	}
+	for i, p := range pairs {
+		if err := c17Run(p, &hx.Rec{}); err != nil {
+			return fmt.Errorf("pair %d of the twins: %v", i, err)
+		}
+	}
+	// and the other way round (whatever was asked first must not matter)
+	for i := len(pairs) - 1; i >= 0; i-- {
+		if err := c17Run(pairs[i], &hx.Rec{}); err != nil {
+			return fmt.Errorf("pair %d of the twins, asked again: %v", i, err)
+		}
+	}
+	return nil
+}
+
 func TestC17(t *testing.T) {
 	begin(t, "C17")
 	hx.Assume("reference matcher written from the grammar documented in in_toto/match.go and the property statement; patterns and names are valid UTF-8")
@@ -186,6 +221,22 @@ func TestC17(t *testing.T) {
 	if !t.Failed() {
 		ck.Execute(t)
 	}
+	if t.Failed() {
+		return
+	}
+	hx.Check[c17Twin]{
+		Property: "C17", Part: "separator-twins",
+		Rule:  "pairs of (pattern, name) pairs built from three generated strings a, b, c and a separator s (NUL, newline, tab, '|', U+0001): (a+s+b, c) and (a, b+s+c); both are evaluated, in both orders, each against the reference matcher; non-trivial = the two pairs have different answers; distinct by case JSON",
+		Cases: hx.Pick(4000, 400000),
+		Gen: func(t *rapid.T) c17Twin {
+			atoms := []string{"a", "b", "*", "*", "?", "[", "]", "[a]", "[^a]", "\\", "/", "x", "", "ab", "[\x00]", "\x00"}
+			str := func(label string) string {
+				return strings.Join(rapid.SliceOfN(rapid.SampledFrom(atoms), 0, 3).Draw(t, label), "")
+			}
+			return c17Twin{A: str("a"), B: str("b"), C: str("c"), Sep: rapid.SampledFrom([]string{"\x00", "\x00", "\n", "\t", "|", "\x01"}).Draw(t, "sep")}
+		},
+		Run: c17TwinRun,
+	}.Execute(t)
 }
 
 func FuzzC17(f *testing.F) {
